@@ -3,10 +3,13 @@
    goes on with another read) and what the implementation did: outcome of every call, the send log of the fake
    socket, the callback log, the announced is_connected values and the final connection state.  check_case re-runs
    the model along the same schedule and requires: every step is enabled in the model and parked at the same label,
-   and all observations are equal. *)
+   and all observations are equal.
+   A second kind of case (rxcase) drives the receive layer alone: a socket queue with arrival times and a script of
+   readline / readbytes / flush_recv calls on one real AsynTcp object; check_rx re-runs RxModel.do_calls and compares,
+   after every call, the result, the clock, _rxbuffer and the number of chunks left in the socket. *)
 From Coq Require Import List Arith ZArith NArith Bool.
 Import ListNotations.
-Require Import FV.Base.Util FV.Gen.C16 FV.C16.Model.
+Require Import FV.Base.Util FV.Gen.C16 FV.C16.Model FV.C16.RxModel.
 Open Scope Z_scope.
 
 Definition TICKS_PER_S : Z := 8.
@@ -77,3 +80,37 @@ Definition model_result (c : case) :=
   let s := sh st in
   (bad, match bad with Some n => match nth_error (c_trace c) n with Some (t, _, _, _) => Some (label_of st t) | None => None end | None => None end,
    map outs (callers st), sendlog s, (cblog s, ann s), (connected s, conn s, nconn s), (map fst (cbs s), last_error s, last_attempt s)).
+
+(* ---------------------------------------------------------------- the receive layer alone (RxModel.v) *)
+Record rxstep := { k_call : rxcall; k_out : rxout; k_now : Z; k_buf : list N; k_left : nat }.
+Record rxcase := { r_eol : list N; r_slice : Z; r_t0 : Z; r_queue : list item; r_steps : list rxstep }.
+
+Definition rxout_eqb (a b : rxout) : bool :=
+  match a, b with
+  | UData x, UData y => bytes_eqb x y
+  | UNone, UNone | UTimeout, UTimeout | UClosed, UClosed => true
+  | _, _ => false
+  end.
+
+Fixpoint all2 {A B} (f : A -> B -> bool) (a : list A) (b : list B) : bool :=
+  match a, b with
+  | [], [] => true
+  | x :: a', y :: b' => f x y && all2 f a' b'
+  | _, _ => false
+  end.
+
+Definition rxobs_eqb (m : rxout * Z * list N * nat) (k : rxstep) : bool :=
+  let '(o, t, b, n) := m in
+  rxout_eqb o (k_out k) && Z.eqb t (k_now k) && bytes_eqb b (k_buf k) && Nat.eqb n (k_left k).
+
+Definition rx_model (r : rxcase) : list (rxout * Z * list N * nat) :=
+  do_calls (r_eol r) (r_slice r) (map k_call (r_steps r)) (r_t0 r) [] (r_queue r).
+
+(* the slice the implementation passed to the socket is AsynConn.timeout *)
+Definition check_rx (r : rxcase) : bool :=
+  Z.eqb (r_slice r) SLICE && all2 rxobs_eqb (rx_model r) (r_steps r).
+
+Inductive tcase := TSys (c : case) | TRx (r : rxcase).
+
+Definition check_tcase (t : tcase) : bool :=
+  match t with TSys c => check_case c | TRx r => check_rx r end.
